@@ -253,9 +253,12 @@ STR_NATIVES = [
     (N(r"^core::str::<impl str>::char_indices$"), s_char_indices),
     (N(r"^<CharIndices<'_> as Iterator>::next$"), s_ci_next),
     (N(r"^core::str::<impl str>::bytes$"), s_bytes),
-    (N(r"^<Bytes<'_> as Iterator>::enumerate$"), s_bytes_enumerate),
-    (N(r"^<(?:Enumerate<)?Bytes<'_>>? as Iterator>::next$"), s_bytes_next),
-    (N(r"^<(?:Enumerate<Bytes<'_>>|Bytes<'_>|CharIndices<'_>) as IntoIterator>::into_iter$"), lambda ex, c, a, m: a[0]),
+    (N(r"^<(?:std::str::|core::str::)?Bytes<'_> as Iterator>::enumerate$"), s_bytes_enumerate),
+    (N(r"^<(?:Enumerate<)?(?:std::str::|core::str::)?Bytes<'_>>? as Iterator>::next$"), s_bytes_next),
+    (N(r"^<(?:Enumerate<(?:std::str::|core::str::)?Bytes<'_>>|(?:std::str::|core::str::)?Bytes<'_>|CharIndices<'_>) as IntoIterator>::into_iter$"),
+     lambda ex, c, a, m: a[0]),
+    (N(r"^core::num::<impl u8>::is_ascii_digit$"), s_is_digit),
+    (N(r"^core::num::<impl u8>::is_ascii_alphabetic$"), s_is_alpha),
     (N(r"^char::methods::<impl char>::is_ascii_digit$"), s_is_digit),
     (N(r"^char::methods::<impl char>::is_ascii_alphabetic$"), s_is_alpha),
     (N(r"^String::with_capacity$|^String::new$"), s_string_new),
